@@ -123,7 +123,7 @@ func init() {
 func init() {
 	properties["C12"] = &Property{
 		Title:       "GSAP always takes the longest available match",
-		Rules:       []string{"R-STRIDE", "R-GSAP-INSERT", "R-GSAP-BOTH", "R-GSAP-REBUILD", "R-GSAP-COVERED", "R-COPY-CLOBBER", "R-RESET-COVER", "R-GSAP-REWIND", "R-CMP-ALIGNED", "R-BITSET-PAIR"},
+		Rules:       []string{"R-STRIDE", "R-GSAP-INSERT", "R-GSAP-BOTH", "R-GSAP-REBUILD", "R-GSAP-COVERED", "R-COPY-CLOBBER", "R-RESET-COVER", "R-GSAP-REWIND", "R-CMP-ALIGNED", "R-BITSET-PAIR", "R-GSAP-WINEXACT"},
 		Decided:     "the scan visits every uncovered position exactly once up to the block end; the current rank is inserted before both neighbour queries and every covered position is inserted; both neighbours are queried, measured against the block-clipped data and the larger length is emitted; the block is scanned only inside the current suffix array or after a rebuild that restores the whole window; the search set's storage is not clobbered when re-grown; Reset/Shrink drop the suffix arrays.",
 		NotDecided:  "that the two suffix-array neighbours give the longest previous match (needs a correct suffix array, C09) and the bit tricks inside bitset.memberBefore/memberAfter/insert.",
 		Assumptions: []string{"suffix.Sort yields the suffix array (C09)", "bitset queries return the nearest members (bit-level arithmetic not decided)"},
